@@ -1,7 +1,7 @@
 CHECK = {
         "obligations": ["C20.c20_doc", "C20.c20_reject", "C20.c20_ssv_partial", "C20.gen_ssv", "C20.unescape_render", "CC.replaceAll_two", "C20.methods_exact", "C20.gen_structure", "C20.gen_numeric", "C20.gen_keepalive",
                         "C20.gen_pubkey", "C20.gen_altname", "C20.gen_tables", "C20.keepAlive_doc", "C20.timeout_doc",
-                        "C20.numConn_doc", "C20.mockList_doc", "C20.transport_doc", "C20.pinned_keepalive"],
+                        "C20.numConn_doc", "C20.mockList_doc", "C20.transport_doc", "C20.pinned_keepalive", "C20.pinned_doc_false"],
         "scenarios": ["C20"],
         "reset_ops": ["cfg."],
         "rule": "logical configurations rendered as JSON and as the escaped option string: every presence/absence combination of the 9 optional keys "
